@@ -107,7 +107,12 @@ def gen_tables():
     # which accessor (id / name) every by-entity overload of the front end forwards to its backend: Props/C04ByEntity.lean
     out5 = os.path.join(LEAN, 'NixModel', 'Gen', 'ByEntity.lean')
     rc5, o5 = sh([sys.executable, os.path.join(VERIF, 'gen', 'extract_byentity.py'), REPO, out5])
-    return rc5 == 0, o + o2 + o3 + o4 + o5
+    if rc5 != 0:
+        return False, o + o2 + o3 + o4 + o5
+    # the container groups the backend constructors open, by name: Props/C02Containers.lean
+    out6 = os.path.join(LEAN, 'NixModel', 'Gen', 'Containers.lean')
+    rc6, o6 = sh([sys.executable, os.path.join(VERIF, 'gen', 'extract_containers.py'), REPO, out6])
+    return rc6 == 0, o + o2 + o3 + o4 + o5 + o6
 
 def lake(target):
     env = dict(os.environ)
